@@ -34,13 +34,13 @@ type Case struct {
 	Nonce  int  `json:"nonce"` // makes the non-std paths of this case unique in the process
 }
 
-// watchdog: a single Render that normally takes milliseconds and has not returned after ten
+// watchdog: a single Render that normally takes milliseconds and has not returned after five
 // minutes is blocked, not slow (process-wide state left behind by other Files' renders can do
 // that); it is reported as a result that differs from the solo reference. The limit was 45 s
 // until a thorough run on a machine busy with six other campaigns (race detector on) crossed it
-// on the unchanged tree: a false alarm (DESIGN 11.2); ten minutes is far beyond any load effect
-// and still inside the driver's time limit.
-const hangLimit = 10 * time.Minute
+// on the unchanged tree: a false alarm (DESIGN 11.2); five minutes is far beyond any load effect
+// and still inside the driver's time limit for the quick tier (8 min).
+const hangLimit = 5 * time.Minute
 
 // hung is set once a render has been seen to block: the process is then beyond repair (whatever
 // blocks it is process-wide), so later renders report the same at once instead of waiting again.
